@@ -283,8 +283,10 @@ ENUMERATORS = {"glob", "rglob", "iterdir", "listdir", "scandir", "walk"}
 def scan_unordered_sources(loader: Any) -> List[Dict[str, Any]]:
     """C22: order-sensitive sinks.  (1) every enumeration of the file system is consumed through
     ``sorted(...)``; (2) no ``set`` / ``frozenset`` / set display / set comprehension is converted to text
-    (f-string, str(), repr(), join, format) without ``sorted(...)``; (3) ``set``-typed names ending in
-    ``_set`` are not iterated by a ``for`` statement or formatted directly."""
+    (f-string, str(), repr(), join, format) without ``sorted(...)``; (3) set-typed expressions (displays, comprehensions,
+    set()/frozenset(), names and attributes ending in ``_set``, results of difference/union/intersection and of the
+    set operators on them) are not iterated by a ``for`` statement or by a comprehension, unless the comprehension
+    feeds an order-insensitive consumer (all, any, set, frozenset, sorted, sum, min, max, len, a set comprehension)."""
     res: List[Dict[str, Any]] = []
     root = loader.repo / "aas_core_codegen"
     for p in sorted(root.rglob("*.py")):
@@ -315,7 +317,23 @@ def scan_unordered_sources(loader: Any) -> List[Dict[str, Any]]:
                 return True
             if isinstance(e, ast.Name) and e.id.endswith("_set") and not e.id.endswith("_id_set"):
                 return True
+            if isinstance(e, ast.Attribute) and e.attr.endswith("_set") and not e.attr.endswith("_id_set"):
+                return True
+            if isinstance(e, ast.Call) and isinstance(e.func, ast.Attribute) and e.func.attr in (
+                    "difference", "union", "intersection", "symmetric_difference"):
+                return True
+            if isinstance(e, ast.BinOp) and isinstance(e.op, (ast.BitOr, ast.BitAnd, ast.Sub, ast.BitXor)) and (
+                    is_set_expr(e.left) or is_set_expr(e.right)):
+                return True
             return False
+
+        def order_insensitive_consumer(comp: ast.AST) -> bool:
+            """The comprehension feeds all/any/set/sorted/...: hash order cannot reach the output."""
+            if isinstance(comp, ast.SetComp):
+                return True
+            q = par.get(id(comp))
+            return isinstance(q, ast.Call) and isinstance(q.func, ast.Name) and q.func.id in (
+                "all", "any", "set", "frozenset", "sorted", "sum", "min", "max", "len")
 
         for node in ast.walk(tree):
             if isinstance(node, ast.Call) and isinstance(node.func, ast.Attribute) and node.func.attr in ENUMERATORS:
@@ -364,8 +382,11 @@ def scan_unordered_sources(loader: Any) -> List[Dict[str, Any]]:
             elif isinstance(node, ast.Call) and isinstance(node.func, ast.Attribute) and node.func.attr in ("join", "format"):
                 sinks.extend(node.args)
             elif isinstance(node, ast.For):
-                if isinstance(node.iter, ast.Name) and is_set_expr(node.iter):
+                if is_set_expr(node.iter):
                     sinks.append(node.iter)
+            elif isinstance(node, (ast.ListComp, ast.GeneratorExp, ast.DictComp, ast.SetComp)):
+                if not order_insensitive_consumer(node):
+                    sinks.extend(g.iter for g in node.generators)
             for sk in sinks:
                 if is_set_expr(sk):
                     n_fmt += 1
@@ -507,7 +528,8 @@ UNITS.append(Scan("literal-call-sites", ["C19"], scan_literal_call_sites))
 
 UNITS.append(Native(
     "all eight targets give the same output under different hash seeds", ["C22"], "native.c22:all_targets", kind="bounded",
-    bound="two meta-models with inheritance, enumerations, constrained primitives, patterns, constant sets and invariants "
-          "(the second one without the C++ and Java targets, which do not support its list of primitives) x 8 targets "
+    bound="three meta-models: two with inheritance, enumerations, constrained primitives, patterns, constant sets and "
+          "invariants (the second one without the C++ and Java targets, which do not support its list of primitives), one "
+          "with a child adding three patterns to a property on which its parent imposes one x 8 targets "
           "x PYTHONHASHSEED in {0, 1, 12345}: exit status, stdout, stderr and every output file compared",
     args={}, timeout_s=1500))
